@@ -155,6 +155,41 @@ func Gen(t *rapid.T, o Opts) Spec {
 			}
 			ts.Rows = append(ts.Rows, row)
 		}
+		if len(ts.Rows) > 0 && rapid.Bool().Draw(t, "variants") {
+			// rows that repeat another row except for the letter case or the
+			// trailing spaces of one or two of its texts: equal under NOCASE or
+			// RTRIM, different under BINARY - what multi-column keys with mixed
+			// collations tell apart
+			nv := rapid.IntRange(1, 6).Draw(t, "nvariants")
+			for v := 0; v < nv; v++ {
+				src := ts.Rows[rapid.IntRange(0, len(ts.Rows)-1).Draw(t, "vsrc")]
+				row := RowSpec{Vals: append([]val.V{}, src.Vals...)}
+				for k := rapid.IntRange(1, 2).Draw(t, "vcols"); k > 0; k-- {
+					c := rapid.IntRange(0, len(row.Vals)-1).Draw(t, "vcol")
+					if row.Vals[c].T != 't' {
+						row.Vals[c] = val.Text(rapid.SampledFrom([]string{"ab", "AB", "ab ", "Ab", "aB  "}).Draw(t, "vtext"))
+						continue
+					}
+					b := append([]byte{}, row.Vals[c].B...)
+					switch rapid.IntRange(0, 2).Draw(t, "vhow") {
+					case 0, 1:
+						for i, ch := range b {
+							switch {
+							case ch >= 'a' && ch <= 'z':
+								b[i] = ch - 'a' + 'A'
+							case ch >= 'A' && ch <= 'Z':
+								b[i] = ch - 'A' + 'a'
+							}
+						}
+					}
+					if rapid.IntRange(0, 2).Draw(t, "vspace") == 0 {
+						b = append(b, "  "[:rapid.IntRange(1, 2).Draw(t, "vnspace")]...)
+					}
+					row.Vals[c] = val.Text(string(b))
+				}
+				ts.Rows = append(ts.Rows, row)
+			}
+		}
 		if o.BigRows > 0 && rapid.IntRange(0, 2).Draw(t, "bulk") == 0 {
 			b := BulkSpec{N: rapid.SampledFrom([]int{30, 100, 300, o.BigRows}).Draw(t, "bulkn"), From: rapid.SampledFrom([]int{1, 1, -50, 1000}).Draw(t, "bulkfrom")}
 			for range ts.Def.Cols {
